@@ -58,6 +58,7 @@ func (n *node) Invalidated() bool {
 
 // strobe invalidates all child nodes while keeping the node itself valid
 func (n *node) strobe() {
+	verifEv("yield", n, nil)
 	// copy out to safely strobe without holding mu
 	n.mu.Lock()
 	out := make([]*node, 0, len(n.out))
@@ -74,6 +75,7 @@ func (n *node) strobe() {
 
 // invalidate invalidates node if it has not yet been invalidated
 func (n *node) invalidate() {
+	verifEv("yield", n, nil)
 	// check if we should invalidate, and figure out who we should invalidate
 	n.mu.Lock()
 	if n.invalidated {
@@ -147,6 +149,7 @@ func (n *node) release() {
 
 // add registers that to depends on n, adding to to n's out
 func (n *node) addOut(to *node) {
+	verifEv("yield", n, nil)
 	// lock both nodes to atomically register the dependency
 	// lock the dependency first to prevent deadlocks
 	n.mu.Lock()
@@ -186,6 +189,7 @@ func (n *node) addOut(to *node) {
 }
 
 func (n *node) handleInvalidate(f func()) {
+	verifEv("yield", n, nil)
 	n.mu.Lock()
 	verifEv("handle", n, nil)
 	if n.invalidated {
@@ -200,6 +204,7 @@ func (n *node) handleInvalidate(f func()) {
 }
 
 func (n *node) handleRelease(f func()) {
+	verifEv("yield", n, nil)
 	n.mu.Lock()
 	verifEv("handleRelease", n, nil)
 	if n.released {
